@@ -56,6 +56,7 @@ type edge struct {
 type loopInfo struct {
 	preHeap   map[string]string   // heap key -> term before the loop (for the automatic loop frame)
 	frameRefs map[string][]string // heap key -> the only refs the loop writes
+	headMem   *Mem                // memory at the loop head (after havoc), for decreases
 	header  *ssa.BasicBlock
 	blocks  map[*ssa.BasicBlock]bool
 	ordinal int
@@ -421,6 +422,7 @@ func (fe *FnEnc) run(args []Val) {
 					t := fe.evalAtLoopAssume(b, inv)
 					fe.s.assert(implies(fe.guard, t))
 				}
+				li.headMem = fe.mem.clone()
 				for _, h := range spec.Hints {
 					t := fe.evalAtLoop(b, h, nil)
 					// hints are proved first (as a lemma instance), then assumed
@@ -501,7 +503,12 @@ func (fe *FnEnc) run(args []Val) {
 			}
 			if spec.Decreases != nil {
 				newV := fe.evalAtLoopTerm(sc, *spec.Decreases, over)
+				saveM := fe.mem
+				if hli.headMem != nil {
+					fe.mem = hli.headMem
+				}
 				oldV := fe.evalAtLoopTerm(sc, *spec.Decreases, nil)
+				fe.mem = saveM
 				fe.check(fmt.Sprintf("loop%d.decreases", hli.ordinal), fe.siteLabel(""), "(and (<= 0 "+oldV+") (< "+newV+" "+oldV+"))", "decreases "+spec.Decreases.Src, sc.Instrs[0].Pos())
 			}
 			if fr := fe.loopFrameGoal(hli); fr != "" {
